@@ -116,6 +116,13 @@ func modeC18() {
 	t0 := time.Now()
 	cerr := in.vr.Close()
 	dur := int(time.Since(t0) / time.Millisecond)
+	// no listening socket is left when Close has returned: every address can be bound again at once
+	nowBound := []string{}
+	for _, lst := range allListeners {
+		if !canBind(lst, in.ports[lst]) {
+			nowBound = append(nowBound, lst)
+		}
+	}
 	cerr2 := in.vr.Close() // idempotent
 	in.vr = nil
 	for _, fu := range in.ups {
@@ -143,5 +150,5 @@ func modeC18() {
 	insts = nil
 	instMu.Unlock()
 	time.Sleep(100 * time.Millisecond)
-	tr.Emit("rclose", "dur", dur, "panic", ps, "rebound", rebound, "stillbound", notRebound, "fds", sockFDs(), "basefds", base)
+	tr.Emit("rclose", "dur", dur, "panic", ps, "rebound", rebound, "stillbound", notRebound, "boundatreturn", nowBound, "fds", sockFDs(), "basefds", base)
 }
